@@ -23,6 +23,8 @@ EXPLANATION = ("AST-level models of both readers (regenerated literal tables), a
 SHARD = 20
 HASHSEEDS = {"quick": [0, 1], "thorough": [0, 1, 2]}
 COQ_MAX_NODES = 40
+# the instance pattern of fast_parse_verilog_netlist (C14_tables_ok checks that the library's pattern is this one)
+INST_RE = r"([a-zA-Z_][a-zA-Z\d_]*)\s+([a-zA-Z_][a-zA-Z\d_]*)\s*\(([^;]+)\);"
 
 
 # ---------------------------------------------------------------- generation
@@ -95,6 +97,14 @@ def generate(rng, tier):
             parts.append("".join(rng.choice(blank) for _ in range(rng.randint(0, 3))) + core +
                          "".join(rng.choice(blank) for _ in range(rng.randint(0, 3))))
         out.append({"kind": "split", "text": ",".join(parts)})
+    # character level (2): re.match of the instance pattern on renderings of `gate inst(ops);` and on damaged variants
+    for i in range(20 if tier == "quick" else 200):
+        ws = lambda lo: "".join(rng.choice(" \t\n\r\x0b\x0c") for _ in range(rng.randint(lo, 3)))
+        g = rng.choice(["nand", "and", "ff", "_u1", "X9_", "b", "9x", "a-b", ""])
+        inst = rng.choice(["g1", "NAND2_0", "_00_", "u_4", "3g", "i", ""])
+        ops = rng.choice(["o,a,b", " o , a ", ".d(a), .q(w)", "o", "", "a;b", "o,(a)", "\n o,\n a\n"])
+        tail = rng.choice([");", ") ;", ")", ");and g2(x,y);", ");\nendmodule", ";"])
+        out.append({"kind": "inst", "text": g + ws(rng.choice([0, 1, 1, 1])) + inst + ws(0) + "(" + ops + tail})
     if tier == "thorough":
         d = lib.REPO / "circuitgraph" / "netlists"
         for f in sorted(list(d.glob("*.v")) + list((d / "tests").glob("*.v"))):
@@ -120,6 +130,10 @@ def _read(text, name, bbdefs, fast):
 def impl(case):
     if case["kind"] == "split":
         return {"pieces": [n.strip() for n in case["text"].split(",")]}
+    if case["kind"] == "inst":
+        import re
+        m = re.match(INST_RE, case["text"], re.DOTALL)
+        return {"groups": list(m.groups()) if m else None}
     if case["kind"] == "bundled":
         raw = (lib.REPO / "circuitgraph" / "netlists" / case["file"]).read_text()
         had_comments = "//" in raw or "/*" in raw
@@ -180,6 +194,10 @@ def cres(r):
 
 
 def to_coq(case, obs):
+    if case["kind"] == "inst":
+        codes = lambda t: lib.cl(str(ord(ch)) for ch in t)
+        g = obs["groups"]
+        return "CInst %s %s" % (codes(case["text"]), "None" if g is None else "(Some (%s,%s,%s))" % tuple(codes(x) for x in g))
     if case["kind"] == "split":
         codes = lambda t: lib.cl(str(ord(ch)) for ch in t)
         return "CSplit %s %s" % (codes(case["text"]), lib.cl(codes(p) for p in obs["pieces"]))
@@ -197,6 +215,8 @@ def to_coq(case, obs):
 
 # ---------------------------------------------------------------- evidence
 def nontrivial(case, obs):
+    if case["kind"] == "inst":
+        return obs["groups"] is not None
     if case["kind"] == "split":
         return len(obs["pieces"]) >= 2
     if case["kind"] == "bundled":
@@ -221,6 +241,8 @@ def _cyclic(d):
 
 
 def classify(case, obs):
+    if case["kind"] == "inst":
+        return ["instance pattern:" + ("match" if obs["groups"] else "no match")]
     if case["kind"] == "split":
         return ["split/strip:%d pieces" % len(obs["pieces"])]
     if case["kind"] == "bundled":
